@@ -98,6 +98,10 @@ def classify(diag, woven_path, lines):
 
     if code or "rlimit" in msg.lower() or "resource limit" in msg.lower() or "timed out" in msg.lower():
         return {"kind": "undecided", "text": msg, "why": "rustc error" if code else "resource limit"}
+    known_kinds = ("precondition not satisfied", "postcondition not satisfied", "assertion failed", "invariant not satisfied", "possible arithmetic", "possible division by zero", "possible overflow", "possible underflow", "overflow", "underflow")
+    if not any(k in msg for k in known_kinds):
+        # syntax / mode / lifetime errors and anything else that is not a failed proof obligation
+        return {"kind": "undecided", "text": msg, "why": "not a verification failure"}
     prim = [s for s in spans if s.get("is_primary")]
     sec = [s for s in spans if not s.get("is_primary")]
     out = {"kind": "failed", "message": msg, "property": None, "clause": None, "site": None, "fn": "?", "text": ""}
